@@ -1053,7 +1053,9 @@ func extractByronTransactionOffsets(
 	cborData []byte,
 	blockArray []cbor.RawMessage,
 ) (*BlockTransactionOffsets, error) {
-	arrayHeaderSize := cborArrayHeaderSize(len(blockArray))
+	// Use the size of the header that is actually present: the array length
+	// may be encoded non-minimally or as an indefinite-length array
+	_, arrayHeaderSize, _ := cborArrayInfo(cborData)
 
 	// blockArray[0] = header, blockArray[1] = body, blockArray[2] = extra
 	headerOffset := arrayHeaderSize
@@ -1083,16 +1085,12 @@ func extractByronTransactionOffsets(
 
 	// Calculate the absolute offset of the tx_payload array within the block.
 	// body starts at bodyOffset, body is an array: [tx_payload, ssc, dlg, upd]
-	bodyArrayHeader := cborArrayHeaderSize(len(bodyParts))
+	_, bodyArrayHeader, _ := cborArrayInfo(blockArray[1])
 	txPayloadOffset := bodyOffset + bodyArrayHeader // tx_payload is bodyParts[0]
 
-	// The tx_payload itself is an array of transaction pairs
-	txPayloadArrayHeader := cborArrayHeaderSize(len(txPayload))
-	// Check for indefinite-length array
-	txPayloadAbsStart := int(txPayloadOffset)
-	if txPayloadAbsStart < len(cborData) && cborData[txPayloadAbsStart] == 0x9f {
-		txPayloadArrayHeader = 1
-	}
+	// The tx_payload itself is an array of transaction pairs; take its actual
+	// header size (definite, non-minimal or indefinite form)
+	_, txPayloadArrayHeader, _ := cborArrayInfo(bodyParts[0])
 
 	result := &BlockTransactionOffsets{
 		Transactions: make([]TransactionLocation, len(txPayload)),
@@ -1115,12 +1113,8 @@ func extractByronTransactionOffsets(
 		}
 
 		// Each pair is a 2-element CBOR array: [tx_body, tx_witnesses]
-		pairArrayHeader := cborArrayHeaderSize(len(txPair))
-		// Check for indefinite-length pair array
-		pairAbsStart := int(pairPos)
-		if pairAbsStart < len(cborData) && cborData[pairAbsStart] == 0x9f {
-			pairArrayHeader = 1
-		}
+		// (actual header size: definite, non-minimal or indefinite form)
+		_, pairArrayHeader, _ := cborArrayInfo(rawPair)
 
 		bodyStart := pairPos + pairArrayHeader
 		bodyLen := uint32(len(txPair[0])) // #nosec G115 -- Cardano block segments are <<4GiB
@@ -1178,20 +1172,13 @@ func extractByronOutputOffsets(
 
 	// Calculate offset to the outputs array within the block.
 	// Skip: body array header + inputs element
-	bodyArrayHeader := cborArrayHeaderSize(len(bodyParts))
-	// Check for indefinite-length body array
-	if len(bodyData) > 0 && bodyData[0] == 0x9f {
-		bodyArrayHeader = 1
-	}
+	// (actual header sizes: definite, non-minimal or indefinite form)
+	_, bodyArrayHeader, _ := cborArrayInfo(bodyData)
 	inputsLen := uint32(len(bodyParts[0])) // #nosec G115
-	outputsAbsOffset := bodyOffset + uint32(bodyArrayHeader) + inputsLen
+	outputsAbsOffset := bodyOffset + bodyArrayHeader + inputsLen
 
 	// Determine outputs array header size
-	outputsArrayHeader := uint32(cborArrayHeaderSize(len(outputsRaw)))
-	outputsArrayStart := int(outputsAbsOffset - bodyOffset)
-	if outputsArrayStart >= 0 && outputsArrayStart < len(bodyData) && bodyData[outputsArrayStart] == 0x9f {
-		outputsArrayHeader = 1 // indefinite-length
-	}
+	_, outputsArrayHeader, _ := cborArrayInfo(bodyParts[1])
 
 	outputPos := outputsAbsOffset + outputsArrayHeader
 	loc.Outputs = make([]ByteRange, len(outputsRaw))
